@@ -15,7 +15,8 @@ EXACT = ["signed_tbb", "fvs_tbb", "iso_tbb"]
 
 def run(tier, replay=None):
     res = Result("C03", tier, "proof")
-    res.assumptions = ["oneTBB only produces executions of the shape modelled by Sched/ForSched (its documented contract) — trusted",
+    res.assumptions = ["literal replay: the stand-in logs every parallel_reduce of a run as a term of Model/Sched.lean's Sched (split points, seq/fork, join tree) and the push order of the support initialisation; the literal models (mcbSignedTbbH on literal heaps, lookupTbb for the tree variants) executed under exactly those schedules must emit exactly the cycles the real templates emitted",
+                       "oneTBB only produces executions of the shape modelled by Sched/ForSched (its documented contract) — trusted",
                        "the per-index searches meet SearchContract: PROVED for the literal models (c03_*_end_to_end: literal bidirectional search / candidate builder under every schedule) and additionally validated per run by the trace validation",
                        "footprints hand-extracted from the lambdas; the memory model itself is outside the model (TSan samples it in the thorough tier)"]
     lean_ok = lean_gate(res, "Parmcb", THEOREMS)
@@ -91,6 +92,7 @@ def run(tier, replay=None):
     res.coverage.update({"evaluations": len(jobs) + len(real_jobs), "distinct_nontrivial": len({json.dumps([c[0], c[1], k, a]) for (c, k, a) in jobs.values() if len(c[1]) - c[0] + components(c[0], c[1]) >= 1}),
         "rule": "graph x {mcb_sva_signed_tbb, mcb_sva_fvs_trees_tbb, mcb_sva_iso_trees_tbb, approx_*_tbb} x seeded schedules of the stand-in (random partitions/orders/seq-fork trees, plus the fully sequential and the maximally split schedule); real oneTBB with 1,2,4,16 threads; non-trivial = cycle space dimension >= 1; distinct by (graph, entry point, schedule seed)",
         "traces_validated_against_impl": len(oks),
+        "exact_tbb_runs_replayed_literally_under_the_logged_schedules_with_equal_cycles": sum(int(w[10]) for w in oks if len(w) > 10),
         "schedule_stats": {"runs": len(shim), "parallel_regions": sum(s[0] for s in shim), "leaves": sum(s[1] for s in shim), "forks": sum(s[2] for s in shim), "seqs": sum(s[3] for s in shim)},
         "real_tbb_runs": len(real_jobs), "tsan": tsan_note,
         "samples": [{"n": c[0], "edges": c[1], "kind": k, "args": a} for (c, k, a) in list(jobs.values())[-2:]], **stats(base)})
